@@ -110,17 +110,20 @@ func checkC09(c *Ctx) {
 	}
 	c.Check(len(fns) >= 5, "R9.0", "reachable-set", "-", fmt.Sprintf("%d HIDI functions reachable from ParseData/readDeviceConfig/LoadHIDIConfig", len(fns)), "reachable set too small: anchors lost")
 	inventoryMayPanic(c, c.P, fns, "R9")
+	ruleDecoderGuard(c, fns)
 	ruleTermination(c, fns)
 	ruleErrorsReturned(c, fns)
 	c.MinCount("R9.1", 15)
 	c.MinCount("R9.2", 2)
 	c.MinCount("R9.3", 6)
 	c.MinCount("R9.4", 8)
+	c.MinCount("R9.9", 2)
 	c.MinCount("R9.7", 8)
 	c.MinCount("R9.8", 10)
 	c.DecidedClause("complete inventory of may-panic instructions in the HIDI-owned parse code reachable from ParseData / readDeviceConfig / LoadHIDIConfig: every dereference of an optional (pointer-typed) decoded field is dominated by a nil test of the same access path, every integer division has a divisor proven non-zero, every index is within a dominating length fact, every map store targets a made map, no explicit panic / unchecked type assertion / close is reachable; every loop is a range or counted loop and there is no recursion; every error result is tested and its failure edge cannot reach a success return")
-	c.UndecidedClause("that the third-party decoder (pelletier/go-toml v2.0.3 Decode/Unmarshal), strconv and regexp never panic or loop on arbitrary bytes: they are called without a recover guard and are not analysed")
-	c.Assumption("toml.Decoder.Decode / toml.Unmarshal return (value or error) for every input")
+	c.DecidedClause("the third-party TOML decoder is only called from functions that defer a recover() turning a decoder panic into their error result (go-toml v2.0.3 does panic on some well-formed, ill-typed input)")
+	c.UndecidedClause("that the third-party decoder (pelletier/go-toml v2.0.3), strconv and regexp terminate on arbitrary bytes (hangs inside them are not analysed); panics inside them are contained by the recover guard")
+	c.Assumption("toml.Decoder.Decode / toml.Unmarshal terminate for every input")
 }
 
 // inventoryMayPanic discharges every instruction that can raise a run-time panic.
@@ -212,6 +215,22 @@ func inventoryMayPanic(c *Ctx, p *Program, fns []*ssa.Function, prefix string) (
 						if isConstOrNil(x.Low) && isConstOrNil(x.High) {
 							continue // checked by the compiler
 						}
+					}
+					if isConstOrNil(x.Low) && isConstOrNil(x.High) && x.Max == nil {
+						// s[a:b] with constant bounds needs len(s) >= max(a, b)
+						need := int64(0)
+						for _, bnd := range []ssa.Value{x.Low, x.High} {
+							if kc, ok := bnd.(*ssa.Const); ok && kc.Int64() > need {
+								need = kc.Int64()
+							}
+						}
+						xt := vw.Term(x.X)
+						lenKey := (&Term{Op: "len", Args: []*Term{xt}}).String()
+						lb := boundsFrom(vw.GuardsAt(b), lenKey, bound{lo: 0, hasLo: true})
+						ok := lb.hasLo && lb.lo >= need
+						report(ok, prefix+".3", k("slice", accessName(xt)), pos, fmt.Sprintf("len >= %d under the dominating conditions", lb.lo),
+							fmt.Sprintf("slice expression needs len(%s) >= %d but it is only known to be in %s", xt, need, lb))
+						continue
 					}
 					report(false, prefix+".3", k("slice", accessName(vw.Term(x.X))), pos, "", "slice expression with non-constant bounds in parsing code: bounds not proven")
 				case *ssa.MapUpdate:
@@ -477,6 +496,78 @@ func submatchLen(p *Program, x ssa.Value) (int, bool) {
 		return 0, false
 	}
 	return re.MaxCap() + 1, true
+}
+
+// ruleDecoderGuard: R9.9 the third-party TOML decoder is only called under a recover guard that turns a
+// decoder panic into the function's error result.
+func ruleDecoderGuard(c *Ctx, fns []*ssa.Function) {
+	n := 0
+	for _, fn := range fns {
+		for _, b := range fn.Blocks {
+			for _, in := range b.Instrs {
+				call, ok := in.(*ssa.Call)
+				if !ok {
+					continue
+				}
+				callee := call.Call.StaticCallee()
+				if callee == nil || callee.Pkg == nil || !strings.Contains(callee.Pkg.Pkg.Path(), "pelletier/go-toml") {
+					continue
+				}
+				if callee.Name() != "Decode" && callee.Name() != "Unmarshal" {
+					continue
+				}
+				n++
+				key := fmt.Sprintf("%s/toml.%s-under-recover-guard", strings.TrimPrefix(shortFn(fn), "midi/device/"), callee.Name())
+				guarded, why := hasRecoverGuard(fn)
+				if guarded {
+					c.OK("R9.9", key, c.P.Pos(call.Pos()), why)
+				} else {
+					c.Bad("R9.9", key, c.P.Pos(call.Pos()), "the third-party TOML decoder is called without a recover guard ("+why+"): go-toml v2.0.3 panics on well-formed but ill-typed input (e.g. `velocity = 1979-05-27`: reflect.Set: value of type toml.LocalDate is not assignable to type int), so a user's file can take the running application down")
+				}
+			}
+		}
+	}
+	if n == 0 {
+		c.Undec("R9.9", "toml-decoder-calls", "-", "no call of the TOML decoder found in the reachable parse code")
+	}
+}
+
+// hasRecoverGuard: fn defers a closure that calls recover() and assigns fn's (named) error result.
+func hasRecoverGuard(fn *ssa.Function) (bool, string) {
+	for _, b := range fn.Blocks {
+		for _, in := range b.Instrs {
+			d, ok := in.(*ssa.Defer)
+			if !ok {
+				continue
+			}
+			cl := closureOf(d.Call.Value)
+			if cl == nil {
+				continue
+			}
+			recovers, setsErr := false, false
+			for _, cb := range cl.Blocks {
+				for _, ci := range cb.Instrs {
+					switch x := ci.(type) {
+					case *ssa.Call:
+						if bi, ok := x.Call.Value.(*ssa.Builtin); ok && bi.Name() == "recover" {
+							recovers = true
+						}
+					case *ssa.Store:
+						if fv, ok := x.Addr.(*ssa.FreeVar); ok && isErrorType(deref(fv.Type())) {
+							setsErr = true
+						}
+					}
+				}
+			}
+			if recovers && setsErr {
+				return true, "deferred closure recovers and sets the error result"
+			}
+			if recovers {
+				return false, "a deferred closure recovers but does not turn the panic into the returned error"
+			}
+		}
+	}
+	return false, "no deferred recover in " + fn.Name()
 }
 
 // ---- R9.7 termination shape -------------------------------------------------------------------------
